@@ -83,7 +83,10 @@ def strip_doc(body: list[ast.stmt]) -> list[ast.stmt]:
 def record_fields(prog: Program, module: str, cls: str) -> list[str]:
     """Field names of a dataclass / NamedTuple in declaration order."""
     ci = prog.cls(f"{module}:{cls}")
-    out = [s.target.id for s in ci.node.body if isinstance(s, ast.AnnAssign) and isinstance(s.target, ast.Name)]
+    out: list[str] = []
+    for c in reversed(prog.mro(ci)):                  # inherited dataclass fields come first
+        out += [s.target.id for s in c.node.body if isinstance(s, ast.AnnAssign) and isinstance(s.target, ast.Name)
+                and s.target.id not in out]
     if not out:
         raise AnalysisError(f"{ci.qual}: no declared fields")
     return out
